@@ -190,17 +190,21 @@ func checkNoClobber(x *Exec, r *Rig, p concParams, recs [][]opRec, contents map[
 				writes = append(writes, wr{rc: rc, key: atoi(f[1]), val: rc.res.Int})
 			case "ci", "inv":
 				writes = append(writes, wr{rc: rc, key: atoi(f[1]), remove: true})
+			case "invall":
+				// counts for keys that are present while being reloaded (its effect on loads of absent keys is undefined)
+				writes = append(writes, wr{rc: rc, key: -1, remove: true})
 			}
 		}
 	}
 	for _, lc := range r.Loads {
+		reloading := lc.Kind == "reload" || lc.Kind == "bulkreload"
 		for _, k := range lc.Keys {
 			// the unconditional writes to k that certainly began after this loader was entered
 			var last *wr
 			ambiguous := false
 			for i := range writes {
 				w := &writes[i]
-				if w.key != k {
+				if w.key != k && !(w.key == -1 && reloading) {
 					continue
 				}
 				if w.rc.call > lc.Enter {
